@@ -408,11 +408,10 @@ func (t *Uint32Tree) Insert(key uint32, value interface{}) {
 		child := parent.children[index]
 		child.lock()
 
-		if index == 0 {
-			if smallest := child.smallest(); key < smallest {
-				// preemptively update smallest value
-				parent.runts[0] = key
-			}
+		if index == 0 && key < parent.runts[0] {
+			// The key becomes the smallest of this subtree. Only ever lower the
+			// first runt; never raise it toward the smallest key of the child.
+			parent.runts[0] = key
 		}
 
 		// Split the internal node when required.
@@ -541,11 +540,10 @@ func (t *Uint32Tree) Update(key uint32, callback func(interface{}, bool) interfa
 		child := parent.children[index]
 		child.lock()
 
-		if index == 0 {
-			if smallest := child.smallest(); key < smallest {
-				// preemptively update smallest value
-				parent.runts[0] = key
-			}
+		if index == 0 && key < parent.runts[0] {
+			// The key becomes the smallest of this subtree. Only ever lower the
+			// first runt; never raise it toward the smallest key of the child.
+			parent.runts[0] = key
 		}
 
 		// Split the internal node when required.
